@@ -932,8 +932,37 @@ def _f20(sub, recipe):
     return False
 
 
+def _f27(sub, recipe):
+    """synchronize_terminal_measurements moves several terminal measurements of one repeated key into a single moment in set order."""
+    c = recipe.get("c") or {}
+    if recipe.get("row") != "synchronize_terminal_measurements" or not c.get("repkeys"):
+        return False
+    seen = set()
+    for o in _ops_of(recipe):
+        if o.get("k") == "m":
+            sig = (int(o.get("key", 0)) % 3, len(o.get("w", [])))
+            if sig in seen:
+                return True
+            seen.add(sig)
+        if o.get("k") == "sub" and o.get("reps") == 2 and any(o2.get("k") == "m" for o2 in G6.walk_ops(o.get("body"))):
+            return True
+    return False
+
+
+def _f28(sub, recipe):
+    """SqrtCZGauge compares `gate == CZ**0.5` exactly although its target gateset accepts CZ**+-0.5 up to global phase (global_shift != 0)."""
+    if "SqrtCZGaugeTransformer" not in str(recipe.get("row")):
+        return False
+    for o in _ops_of(recipe):
+        if o.get("k") in ("g", "cc") and o.get("g", [None])[0] == "CZPow" and not o.get("sym"):
+            p = o["g"][1]
+            if float(p.get("s", 0)) != 0 and abs((float(p.get("e", 0)) % 2) - 0.5) in (0.0, 1.0):
+                return True
+    return False
+
+
 KNOWN_FEATURES = {
-    "F25_merge_moves_measurement_past_control": _f25,
+
     "F20_measurement_qid_unorderable": _f20,
     "F23_qubit_mapping_subcircuit_simple_manager": _f23,
     "F22_phxz_symbolized_symbols_in_subcircuit": _f22,
